@@ -48,8 +48,8 @@ func GenKVs(t *rapid.T, label string, allowLong bool, maxKeys int) []KV {
 	var out []KV
 	for i := 0; i < n; i++ {
 		k := Str(t, label+"-k", false)
-		if seen[k] {
-			k = k + "#" + string(rune('a'+i))
+		for n := 0; seen[k]; n++ {
+			k = k + "#" + string(rune('a'+(i+n)%26))
 		}
 		seen[k] = true
 		out = append(out, KV{k, Str(t, label+"-v", allowLong && i == 0)})
